@@ -1061,3 +1061,39 @@ def rf66(run):
                               'the MIR program as seen through the API and is not restored after generation, so the function prints / is '
                               'interpreted / is inlined differently afterwards' % (F.src(l)[:70], hit[0], hit[1]), line=x['l'])
     return n
+
+
+# ---------------------------------------------------------------------------------------------
+# RF76: the per-function lref list is rebuilt from empty on every load
+# ---------------------------------------------------------------------------------------------
+
+def rf76(run):
+    rule = 'RF76'
+    run.rule(rule, 'link_module_lrefs threads the lref data items of a module on func->first_lref with `node->next = head; head = node`.  '
+                   'MIR_load_module may be called again for the same module (the same nodes): the head of every function of the module '
+                   'is reset to NULL before the first push, otherwise the second load links a node to itself (cyclic list, MIR_link '
+                   'never terminates)')
+    tu = run.tu('mir')
+    f = tu.func('link_module_lrefs')
+    run.functions_analysed.add(('mir', f.name))
+    pushes = [x for x in f.walk() if x['k'] == 'BinaryOperator' and x['op'] == '=' and F.src(F.strip(x['c'][0])).endswith('->first_lref')
+              and F.const_value(F.strip(x['c'][1])) is None]
+    resets = [x for x in f.walk() if x['k'] == 'BinaryOperator' and x['op'] == '=' and F.src(F.strip(x['c'][0])).endswith('->first_lref')
+              and F.const_value(F.strip(x['c'][1])) == 0]
+    if not pushes:
+        raise F.AnalysisBroken('link_module_lrefs: push on first_lref not found')
+    loops = [l for l in f.walk() if l['k'] == 'ForStmt']
+    def loop_of(x):
+        ls = [l for l in loops if any(y is x for y in F.walk(l))]
+        return ls[0] if ls else None   # outermost
+    ok = False
+    for r in resets:
+        lr, lp = loop_of(r), loop_of(pushes[0])
+        if lr is not None and lp is not None and lr is not lp and lr['l'] < lp['l'] and 'items' in F.src(lr['c'][0] if lr['c'][0] is not None else lr):
+            ok = True
+    run.ob(rule, ('reset',), ok, {'pushes at': [p['l'] for p in pushes], 'resets at': [r['l'] for r in resets]})
+    if not ok:
+        run.violation(rule, f, 'lref list not reset', 'link_module_lrefs pushes the lref nodes on func->first_lref without first clearing the '
+                      'heads of the module\'s functions in an earlier pass over the items: loading the module again pushes the same nodes '
+                      'a second time and the list becomes cyclic', line=pushes[0]['l'])
+    return 1
